@@ -201,6 +201,18 @@ func c18OnlyCalledFrom(all []*ssa.Function, h, root *ssa.Function) bool {
 	return n > 0
 }
 
+// c18DeferredBody is the function whose body a defer statement runs: the
+// deferred closure, or a deferred function/method of the package.
+func c18DeferredBody(d *ssa.Defer, pkg map[*ssa.Function]bool) *ssa.Function {
+	if mc, ok := d.Call.Value.(*ssa.MakeClosure); ok {
+		return mc.Fn.(*ssa.Function)
+	}
+	if h := d.Call.StaticCallee(); h != nil && pkg[h] {
+		return h
+	}
+	return nil
+}
+
 // c18Ret is one way a function returns result idx: the return instruction, or
 // (when the result is a φ in the return block) the jump that selects the value.
 type c18Ret struct {
@@ -582,11 +594,10 @@ func c18(r *core.Run) {
 					if site(d) {
 						return true
 					}
-					mc, ok := d.Call.Value.(*ssa.MakeClosure)
-					if !ok {
+					c := c18DeferredBody(d, inPkg)
+					if c == nil {
 						return false
 					}
-					c := mc.Fn.(*ssa.Function)
 					return len(core.Instrs(c, site)) > 0 && core.MustPass(core.Entry(c), site, core.IsExit) == nil
 				}
 				if doneD == nil && covers(isDone) {
@@ -638,7 +649,12 @@ func c18(r *core.Run) {
 						}
 						continue
 					}
-					c := doneD.Call.Value.(*ssa.MakeClosure).Fn.(*ssa.Function)
+					c := c18DeferredBody(doneD, inPkg)
+					if c == nil {
+						// `defer wg.Done()` and the delete in one statement cannot both be direct calls
+						o.Unres("%s: shape of the deferred cleanup not understood", core.FuncName(f))
+						continue
+					}
 					r.Fn(core.FuncName(c))
 					plain := func(pr instrPred) instrPred {
 						return func(in ssa.Instruction) bool { _, ok := in.(*ssa.Call); return ok && pr(in) }
@@ -737,6 +753,23 @@ func c18(r *core.Run) {
 				}
 				for _, s := range sites {
 					n++
+					// fresh computed from the flag itself: `!done` is right on every path, `done` on none
+					base, neg := s.val, false
+					for {
+						u, ok := base.(*ssa.UnOp)
+						if !ok || u.Op != token.NOT {
+							break
+						}
+						base, neg = u.X, !neg
+					}
+					if m, pos := done(base); m {
+						// done(base) matched with polarity pos: base is true exactly when (pos ? found : not found)
+						if neg == pos {
+							continue
+						}
+						o.Fail(p.InstrPos(s.in), "%s reports fresh=%s: true for a shared result and false for its own execution", core.FuncName(f), core.Describe(s.val))
+						continue
+					}
 					_, afterExec := core.Reach(core.Q{From: []core.At{core.Entry(f)}, Target: core.Is(s.in), Blocked: isExec})
 					// afterExec==true means s is reachable WITHOUT executing: shared
 					shared := afterExec
@@ -1115,8 +1148,32 @@ func c18(r *core.Run) {
 		if len(items) == 0 {
 			o.Fail(p.Pos(get.Pos()), "Pool.Get never hands out an idle resource")
 		}
-		if w, ok := core.Reach(core.Q{From: c18Heads(holds), Target: core.IsReturn, Blocked: isPop}); ok {
-			o.Fail(p.InstrPos(w), "an idle resource is handed out without being unlinked from the list: two holders can get it")
+		// Every handed-out item stems from a read of the list head; between that
+		// read and the return the head is unlinked. Edges on which the head is
+		// known to be nil are cut (no item can be returned from a nil node), which
+		// makes the rule independent of where the nil test sits (inline, repeated
+		// after an extracted pop helper, or nested).
+		_, headNil := core.EdgesOf(get, hasHead)
+		isHeadLoad := func(in ssa.Instruction) bool {
+			u, ok := in.(*ssa.UnOp)
+			return ok && u.Op == token.MUL && core.FieldAddrName(u.X) == "Pool.head"
+		}
+		headLoads := core.Instrs(get, isHeadLoad)
+		for _, ret := range items {
+			src := 0
+			for _, l := range headLoads {
+				lv := l.(ssa.Value)
+				if !core.DependsOn(core.Result(ret.(*ssa.Return), 0), func(v ssa.Value) bool { return v == lv }) {
+					continue
+				}
+				src++
+				if _, ok := core.Reach(core.Q{From: []core.At{core.After(l)}, Target: core.Is(ret), Blocked: isPop, Cut: core.CutSet(headNil)}); ok {
+					o.Fail(p.InstrPos(ret), "an idle resource is handed out without being unlinked from the list: two holders can get it")
+				}
+			}
+			if src == 0 {
+				o.Fail(p.InstrPos(ret), "the handed-out item does not stem from the idle list head")
+			}
 		}
 		// the aged test
 		isNow := func(v ssa.Value) bool {
@@ -1157,12 +1214,24 @@ func c18(r *core.Run) {
 		if w, ok := core.Reach(core.Q{From: c18Heads(agedE), Target: stop, Blocked: c18Via(inPkg, isDecr, true)}); ok {
 			o.Fail(p.InstrPos(w), "an aged resource is discarded without created--: the pool loses a slot for good")
 		}
-		if w, ok := core.Reach(core.Q{From: c18Heads(agedE), Target: isItemRet, Blocked: isPop}); ok {
+		// once found aged, the node is never handed out (the next read of the head starts a new candidate)
+		if w, ok := core.Reach(core.Q{From: c18Heads(agedE), Target: isItemRet, Blocked: core.Or(isPop, isHeadLoad)}); ok {
 			o.Fail(p.InstrPos(w), "an aged resource is handed out")
 		}
-		noMaxAge := core.Not(core.Cmp(token.GTR, core.FieldLoad("Pool.maxAge"), core.IsConstInt(0)))
-		if w := core.Requires(get, isItemRet, core.Not(aged), noMaxAge); w != nil {
-			o.Fail(p.InstrPos(w), "an idle resource is handed out on a path that did not test its age")
+		// every hand-out evaluates the age comparison after reading the head, unless maxAge <= 0
+		noMaxAge, _ := core.EdgesOf(get, core.Not(core.Cmp(token.GTR, core.FieldLoad("Pool.maxAge"), core.IsConstInt(0))))
+		isAgeCmp := func(in ssa.Instruction) bool {
+			v, ok := in.(ssa.Value)
+			if !ok {
+				return false
+			}
+			m, _ := aged(v)
+			return m
+		}
+		for _, l := range headLoads {
+			if w, ok := core.Reach(core.Q{From: []core.At{core.After(l)}, Target: isItemRet, Blocked: core.Or(isAgeCmp, func(in ssa.Instruction) bool { return in != l && isHeadLoad(in) }), Cut: core.CutSet(noMaxAge, headNil)}); ok {
+				o.Fail(p.InstrPos(w), "an idle resource is handed out on a path that did not test its age")
+			}
 		}
 		for _, c := range core.Calls(get, isDestroy) {
 			if a := c.Common().Args; len(a) != 1 || !core.IsFieldLoad(a[0], "node.item") {
